@@ -112,8 +112,10 @@ func (sp *SpinLock) IsLocked(key string) bool {
 func (sp *SpinLock) TryLock(lockKeys []*LockKey) ([]*LockKey, bool) {
 	succLocked := []*LockKey{}
 	for _, k := range lockKeys {
+		verifYield("trylock_key", k.key)
 		if lkType, occupiedByOthers := sp.m.LoadOrStore(k.key, k.lockType); occupiedByOthers {
 			if lkType == sharedLock && k.lockType == sharedLock { //读读共享
+				verifYield("trylock_shared_before_add", k.key)
 				sp.refCounter.Add(k.key)
 				succLocked = append(succLocked, k)
 				continue
@@ -122,6 +124,7 @@ func (sp *SpinLock) TryLock(lockKeys []*LockKey) ([]*LockKey, bool) {
 			}
 		}
 		if k.lockType == sharedLock {
+			verifYield("trylock_first_before_add", k.key)
 			sp.refCounter.Add(k.key)
 		}
 		succLocked = append(succLocked, k) //第一个抢到
@@ -135,10 +138,12 @@ func (sp *SpinLock) Unlock(lockKeys []*LockKey) {
 	for i := N - 1; i >= 0; i-- {
 		lkType := lockKeys[i].lockType
 		k := lockKeys[i].key
+		verifYield("unlock_key", k)
 		if lkType == exclusiveLock {
 			sp.m.Delete(k)
 		} else if lkType == sharedLock { //共享锁要考虑引用计数
 			if sp.refCounter.Release(k) == 0 {
+				verifYield("unlock_shared_before_delete", k)
 				sp.m.Delete(lockKeys[i].key)
 			}
 		}
